@@ -73,15 +73,18 @@ def plan(exe, tier):
         for cap in (0, 1, 2, 3):
             exh("T", cap, 3, 1)
             exh("M", cap, 3, 1)
-        exh("T", 1, 5, 0)
-        exh("T", 2, 4, 1)
-        exh("T", 3, 4, 0, limit=4000000)
-        exh("M", 2, 5, 1)
-        exh("M", 3, 4, 1)
-        exh("M", 1, 6, 0)
+        exh("T", 1, 4, 1)
+        exh("T", 2, 4, 0, limit=16000000)
+        exh("M", 1, 5, 1, limit=8000000)
+        exh("M", 2, 4, 1)
+        exh("M", 3, 4, 0, limit=8000000)
+        # beyond the exhaustive depth: seeded random sequences (enumerating depth 5 would take hours)
+        rnd("T", 1, 6, 1000000, 0)
+        rnd("T", 2, 5, 2000000, 1)
+        rnd("T", 3, 5, 2000000, 0)
         rnd("T", 8, 30, 200000, 1)
         rnd("M", 8, 30, 100000, 1)
-        rnd("T", 3, 12, 100000, 1)
+        rnd("T", 3, 12, 200000, 1)
         rnd("T", 5, 60, 20000, 1)
     return jobs
 
